@@ -113,8 +113,23 @@ class Result:
     def violation(self, prop, kind, msg, case):
         """record a violation of property `prop`; only those of self.prop decide this check."""
         if prop == self.prop:
-            if len(self.violations) < 25:
-                self.violations.append({"prop": prop, "kind": kind, "msg": str(msg)[:1500], "case": case})
+            v = {"prop": prop, "kind": kind, "msg": str(msg)[:1500], "case": case}
+            # occurrences of an OPEN known finding must not use up the places of this list (a directed corpus can
+            # produce dozens of them): two per finding are kept for the KNOWN-FINDING line, the rest is only counted
+            try:
+                from . import known as _known
+
+                e = _known.classify(v)
+            except Exception:
+                e = None
+            if e is not None:
+                self.count("known_finding_%s_occurrences" % e.get("id", "?"))
+                kept = sum(1 for x in self.violations if x.get("_known") == e.get("id"))
+                if kept < 2:
+                    v["_known"] = e.get("id")
+                    self.violations.append(v)
+            elif sum(1 for x in self.violations if not x.get("_known")) < 25:
+                self.violations.append(v)
             self.count("violations_total")
         else:
             self.other[prop] = self.other.get(prop, 0) + 1
